@@ -73,6 +73,8 @@ type Case struct {
 	Allocs []Alloc           `json:"allocs"`
 	MHeap  []int             `json:"mheap"`
 	ID     string            `json:"id"`
+	// the specification's own integer interpretation of every live tensor (C17), per handle
+	IExp [][]int64 `json:"iexp"`
 }
 
 func (c *Case) Normalize() {
